@@ -671,7 +671,13 @@ class Translator:
     # ------------------------------------------------------------- conditions
     def cond(self, e, env) -> str:
         """Compile a test to a decidable Lean Prop (no fallible sub-expressions allowed)."""
-        sv = self.static_value(e, env) if not isinstance(e, ast.Constant) else None
+        if ast.unparse(e) in self.spec.subst and self.spec.subst[ast.unparse(e)][1] == "bool":
+            # a whole test substituted away by a Boolean parameter (FuncSpec.subst)
+            return f"({self.spec.subst[ast.unparse(e)][0]} = true)"
+        # a test that mentions a substituted expression is never folded to a constant
+        has_subst = bool(self.spec.subst) and any(
+            isinstance(n, ast.expr) and ast.unparse(n) in self.spec.subst for n in ast.walk(e))
+        sv = self.static_value(e, env) if not isinstance(e, ast.Constant) and not has_subst else None
         if sv is not None:
             return "True" if sv[2] else "False"
         if isinstance(e, ast.Constant):
